@@ -6,16 +6,20 @@ from props import setflib
 ID = "C06"
 LEVEL = "proof"
 PROPERTIES_MODULE = "Properties.C06"
-COQ_TARGETS = ["Properties/C06.vo"]
-THEOREMS = ["C06_card_monotone", "C06_card_positive", "C06_sum_antitone"]
+COQ_TARGETS = ["Properties/C06.vo", "Model/Dispatch.vo"]
+THEOREMS = ["C06_card_monotone", "C06_card_positive", "C06_sum_antitone",
+            "C06_increment_is_renyi_spacing", "C06_register_threshold", "C06_register_antitone"]
 AXIOMS_ALLOWED = setflib.REAL_AXIOMS
-TRANSLATORS = [("setsketch-formulas", setflib.translate)]
+TRANSLATORS = [("setsketch-formulas", setflib.translate), ("setsketch-register-law", setflib.translate_setlaw)]
 TRUSTED_BASE = [
     "translate/tr_setformulas.py: get_cardinal_stats and MleJaccard::get_cardinal_estimate must equal closed templates with the same "
     "expression m (1 - 1/b) / (a ln b sum b^-K); card_of_sum is its transcription over the reals",
     "monotonicity in the registers is proved over the reals; that registers only increase under sketch and merge is C05 (Coq); the float "
     "evaluation (exp, ln_1p, summation order, rayon reduction) is checked on the implementation along generated streams",
     "real-number axioms of the Coq standard library",
+    "translate/tr_setlaw.py: the statements of SetSketcher::sketch that define the register law (seeding, spacing inva/(m-j), "
+    "ln x / ln b, floor and clamp, both early exits, strict raise) must occur in the expected form and order",
+    "register correspondence through the extracted model (as C05)",
 ]
 ASSUMPTIONS = ["PARTIAL: expected relative error O(1/m) and the 15% window on the relative spread are statistical and not decided "
                "(observed relative errors are listed in the evidence, never used as a pass criterion)",
@@ -23,6 +27,7 @@ ASSUMPTIONS = ["PARTIAL: expected relative error O(1/m) and the 15% window on th
 
 
 def correspond(run):
+    setflib.correspond_registers(run, 300 if run.tier == "quick" else 3000)
     rc, js, out, err = vlib.harness(["card-props", "--seed", run.seed, "--n", 40 if run.tier == "quick" else 600], timeout=2400)
     if rc != 0 or js is None:
         run.oblige("direct:card-props", "correspondence", False, (out[-300:] + err[-300:]))
@@ -36,6 +41,16 @@ def correspond(run):
                        "estimate sampled at 50 points (never decreases), parallel estimator compared at each, then a merge (never decreases)",
                   extra={"observed_relative_errors": [round(o["rel_err"], 4) for o in obs[:20]]})
     run.oblige("direct:card-streams-ran", "correspondence", js["tried"] >= 10, "")
+
+
+def search(run):
+    rc, js, out, err = vlib.harness(["card-mc", "--seed", run.seed, "--trials", 400], timeout=3000)
+    if rc == 0 and js is not None:
+        for f in js["found"][:1]:
+            run.violation("card-bias", "SetSketch cardinality estimate for n = %d distinct items, m = %d, b = %s: mean relative error %+.4f over %d "
+                          "trials, allowed 2 sigma^2 + 6 standard errors = %.4f (advertised sigma %.4f)" % (
+                              f["n"], f["m"], f["b"], f["mean_rel_err"], f["trials"], f["allowed"], f["advertised_rsd"]),
+                          {"kind": "impl-input", "input": f, "observed": f["mean_rel_err"], "expected": "|mean| <= %s" % f["allowed"]})
 
 
 def replay(path):
